@@ -31,6 +31,11 @@ SHAPES = {
     # more than 8 classes for one token: the class-score vector is longer than the fixed 8-lane layout
     't7-nine-classes': {'cw': 1, 'tw': 1, 'char': ['a'],
                         'tags': [{'token': 'a', 'cands': [['A1', 'A2', 'A3'], ['B1', 'B2', 'B3'], ['C1', 'C2', 'C3']], 'char': [('a', [0])], 'type': []}]},
+    # scorer selection: boundary type n-grams present while no tag model has a type tag n-gram (cached window / wide window)
+    't8-type-boundary-only': {'cw': 1, 'tw': 1, 'char': ['a'], 'type': ['R'],
+                              'tags': [{'token': 'a', 'cands': [['N', 'V']], 'char': [('a', [0])], 'type': []}]},
+    't9-type-boundary-only-wide': {'cw': 1, 'tw': 4, 'type': ['R'],
+                                   'tags': [{'token': 'a', 'cands': [['N', 'V']], 'char': [('a', [0])], 'type': []}]},
 }
 BOUNDS = {
     'quick': {'text_chars': '1..3', 'shapes': sorted(SHAPES), 'labels': 'symbolic in {WB,NB,Unknown} (set after prediction, as a filter would)',
@@ -57,6 +62,8 @@ def jobs(tier, seed):
                 if tier == 'quick' and heavy and n == 3 and not store:
                     continue
                 if name == 't7-nine-classes' and (n > (1 if tier == 'quick' else 2) or not store):
+                    continue
+                if name in ('t8-type-boundary-only', 't9-type-boundary-only-wide') and tier == 'quick' and (n > 2 or not store):
                     continue
                 if tier == 'thorough' and heavy and n == 5:
                     continue
